@@ -167,7 +167,7 @@ func Build(s *Setup, reqs []*Req, o BuildOpts) *World {
 		case HkReqLogger:
 			return func(c flamego.Context, r *http.Request) {
 				q := w.reqOf(r)
-				c.Map(log.NewWithOptions(&q.logSink, log.Options{Level: log.DebugLevel, Prefix: q.Name}))
+				c.Map(log.NewWithOptions(sinkFor(q), log.Options{Level: log.DebugLevel, Prefix: q.Name}))
 			}
 		case HkToken:
 			return func(c flamego.Context, r *http.Request) {
